@@ -1,5 +1,6 @@
 //! `bbv replay <file>`: re-run one recorded failing case against the current /repo, bypassing
-//! every generator. `bbv warm`: pre-build dependencies.
+//! every generator. The same routine drives the regression tier (`/verif/regressions/<ID>/*.json`,
+//! replayed in every check of that property). `bbv warm`: pre-build dependencies.
 
 use crate::bprops::{self, run_corpus, BConfig};
 use crate::common::*;
@@ -13,31 +14,16 @@ fn load(path: &str) -> Value {
     serde_json::from_str(&text).unwrap_or_else(|e| inconclusive(&format!("bad replay file {}: {}", path, e)))
 }
 
-fn still_fails(prop: &str, path: &str, what: &str) -> ! {
-    println!("# {}", what.replace('\n', " "));
-    println!("VIOLATION property={} replay={}", prop, path);
-    std::process::exit(1);
-}
-
-fn passes(prop: &str, path: &str) -> ! {
-    println!("REPLAY-PASS property={} file={} (the recorded case no longer fails)", prop, path);
-    std::process::exit(0);
-}
-
-pub fn replay(path: &str) -> ! {
-    let doc = load(path);
-    let prop = doc["property"].as_str().unwrap_or_else(|| inconclusive("replay file has no property")).to_string();
+/// Ok(()) = the recorded case no longer fails; Err(what) = it still fails.
+pub fn replay_doc(rc: &RunCtx, doc: &Value) -> Result<(), String> {
+    let prop = rc.prop.clone();
     let kind = doc["kind"].as_str().unwrap_or("behaviour").to_string();
-    let mut rc = RunCtx::new(&prop, Tier::Quick, doc["seed"].as_u64().unwrap_or(0));
-    rc.work = std::path::PathBuf::from(format!("{}/work/replay-{}", VERIF, prop));
-    rc.write_evidence = false;
     match kind.as_str() {
         "behaviour" => {
             let layout: Layout = serde_json::from_value(doc["layout"].clone()).unwrap_or_else(|e| inconclusive(&format!("bad layout in replay: {}", e)));
-            let profile = doc["profile"].as_str().unwrap_or("dev").to_string();
-            let profile: &'static str = match profile.as_str() {
-                "release" => "release",
-                "checked" => "checked",
+            let profile: &'static str = match doc["profile"].as_str() {
+                Some("release") => "release",
+                Some("checked") => "checked",
                 _ => "dev",
             };
             let base = bprops::config_for(&prop, Tier::Quick);
@@ -48,54 +34,96 @@ pub fn replay(path: &str) -> ! {
                 extra.push(serde_json::to_string(&doc["case"]).unwrap());
             }
             let layout_copy = layout.clone();
-            let out = run_corpus(&rc, &cfg, &[(0, layout)], "r", &extra, None);
+            let out = run_corpus(rc, &cfg, &[(0, layout)], "r", &extra, None);
             if let Some((_, msgs)) = out.uncompilable.first() {
                 if !rules::layout_verdict(&layout_copy).is_valid() {
                     // an invalid declaration (e.g. an overhang probe) that is now rejected: the defect is gone
-                    passes(&prop, path);
+                    return Ok(());
                 }
-                still_fails(&prop, path, &format!("declaration does not compile: {:?}", msgs));
-            }
-            if doc["case"].is_null() {
-                passes(&prop, path);
+                return Err(format!("declaration does not compile: {:?}", msgs));
             }
             for (_, rs) in &out.results {
                 for r in rs {
                     if let Some(f) = &r.failure {
-                        still_fails(&prop, path, &format!("{}: {}", f.check, f.detail));
+                        return Err(format!("{}: {}", f.check, f.detail));
                     }
                 }
             }
-            passes(&prop, path);
+            Ok(())
         }
         "behaviour-digest" => {
             let layout: Layout = serde_json::from_value(doc["layout"].clone()).unwrap_or_else(|e| inconclusive(&format!("bad layout in replay: {}", e)));
             let base = bprops::config_for(&prop, Tier::Quick);
             let cfg = BConfig { profiles: vec!["dev", "release"], ncrates: 1, cases: doc["cases"].as_u64().unwrap_or(1000) as u32, ..base };
-            let out = run_corpus(&rc, &cfg, &[(0, layout.clone())], "r", &[], None);
-            let o = bprops::summarize(&rc, &cfg, &[(0, layout)], out);
-            if let Some(v) = o.violations.first() {
-                still_fails(&prop, path, &v.summary);
+            let out = run_corpus(rc, &cfg, &[(0, layout.clone())], "r", &[], None);
+            let o = bprops::summarize(rc, &cfg, &[(0, layout)], out);
+            match o.violations.first() {
+                Some(v) => Err(v.summary.clone()),
+                None => Ok(()),
             }
-            passes(&prop, path);
         }
         "enum" => {
             let decl: EnumDecl = serde_json::from_value(doc["decl"].clone()).unwrap_or_else(|e| inconclusive(&format!("bad enum in replay: {}", e)));
-            let out = eprops::run_enum_corpus(&rc, &[(0, decl)], "r", &["dev"], 1000, 100_000);
+            let out = eprops::run_enum_corpus(rc, &[(0, decl)], "r", &["dev"], 1000, 100_000);
             if let Some((_, msgs)) = out.uncompilable.first() {
-                still_fails(&prop, path, &format!("enum does not compile: {:?}", msgs));
+                return Err(format!("enum does not compile: {:?}", msgs));
             }
             for (_, rs) in &out.results {
                 for r in rs {
                     if let Some(f) = &r.failure {
-                        still_fails(&prop, path, &format!("{}: {}", f.check, f.detail));
+                        return Err(format!("{}: {}", f.check, f.detail));
                     }
                 }
             }
-            passes(&prop, path);
+            Ok(())
         }
-        other => crate::vprops::replay(&rc, other, &doc, path),
+        other => crate::vprops::replay_doc(rc, other, doc),
     }
+}
+
+pub fn replay(path: &str) -> ! {
+    let doc = load(path);
+    let prop = doc["property"].as_str().unwrap_or_else(|| inconclusive("replay file has no property")).to_string();
+    let mut rc = RunCtx::new(&prop, Tier::Quick, doc["seed"].as_u64().unwrap_or(0));
+    rc.work = std::path::PathBuf::from(format!("{}/work/replay-{}", VERIF, prop));
+    rc.write_evidence = false;
+    match replay_doc(&rc, &doc) {
+        Err(what) => {
+            println!("# {}", what.replace('\n', " "));
+            println!("VIOLATION property={} replay={}", prop, path);
+            std::process::exit(1);
+        }
+        Ok(()) => {
+            println!("REPLAY-PASS property={} file={} (the recorded case no longer fails)", prop, path);
+            std::process::exit(0);
+        }
+    }
+}
+
+/// Regression tier: replays of defects that were found and repaired, committed under
+/// /verif/regressions/<ID>/. A replay that fails again is a violation with signature
+/// `regression/<file stem>`.
+pub fn regressions(rc: &RunCtx) -> (Vec<Violation>, u64) {
+    let dir = format!("{}/regressions/{}", VERIF, rc.prop);
+    let mut files: Vec<std::path::PathBuf> = match std::fs::read_dir(&dir) {
+        Ok(rd) => rd.filter_map(|e| e.ok()).map(|e| e.path()).filter(|p| p.extension().map(|x| x == "json").unwrap_or(false)).collect(),
+        Err(_) => return (vec![], 0),
+    };
+    files.sort();
+    let mut sub = RunCtx::new(&rc.prop, rc.tier, rc.seed);
+    sub.work = rc.work.join("regress");
+    sub.write_evidence = false;
+    let mut out = Vec::new();
+    let mut n = 0;
+    for f in files {
+        let doc = load(f.to_str().unwrap());
+        n += 1;
+        if let Err(what) = replay_doc(&sub, &doc) {
+            let stem = f.file_stem().map(|s| s.to_string_lossy().to_string()).unwrap_or_default();
+            out.push(Violation { sig: format!("regression/{}", stem), summary: format!("{}: regression replay {} fails again: {}", rc.prop, f.display(), what), replay: doc });
+        }
+    }
+    (out, n)
 }
 
 pub fn warm() -> ! {
@@ -103,7 +131,7 @@ pub fn warm() -> ! {
     rc.work = std::path::PathBuf::from(format!("{}/work/warm", VERIF));
     rc.write_evidence = false;
     let layouts: Vec<(usize, Layout)> = crate::corpus::corpus("C16", Tier::Quick, 0).into_iter().take(8).collect();
-    let cfg = BConfig { emit: EmitOpts { builder: true, ..EmitOpts::accessors() }, profiles: vec!["dev", "release", "checked"], cases: 50, max_ops: 8, exh_budget: 1000, ncrates: 2 };
+    let cfg = BConfig { emit: EmitOpts { builder: true, ..EmitOpts::accessors() }, profiles: vec!["dev", "release", "checked"], cases: 50, max_ops: 8, exh_budget: 1000, ncrates: 2, tolerant: false };
     let out = run_corpus(&rc, &cfg, &layouts, "b", &[], None);
     println!("warm: built {} layouts in {:.1}s", layouts.len(), out.build_s);
     crate::vprops::warm(&rc);
